@@ -57,7 +57,19 @@ ORIENT = (
     (0.36, 0.48, 0.8),
     (-0.6, 0.0, 0.8),
     (0.0, -1.0, 0.0),
+    # sign variants of one another (used by the orientation-pair histories): same |components|, different directions
+    (1 / math.sqrt(2), 1 / math.sqrt(2), 0.0),
+    (1 / math.sqrt(2), -1 / math.sqrt(2), 0.0),
+    (-1 / math.sqrt(3), 1 / math.sqrt(3), 1 / math.sqrt(3)),
+    (1 / math.sqrt(3), -1 / math.sqrt(3), 1 / math.sqrt(3)),
+    (-0.36, 0.48, 0.8),
+    (0.36, -0.48, -0.8),
+    (-1.0, 0.0, 0.0),
+    (0.0, 1.0, 0.0),
+    (0.6, 0.0, 0.8),
 )
+ORIENT_PAIR_IDX = (0, 11, 4, 12, 1, 7, 8, 5, 6, 2, 9, 10, 3, 13)
+PAIR_GEOS = ((("chain", 2), (1.5, 0.5), (3.0,)), (("chain", 3), (1.0, 0.5, 1.0), (1.5, 2.0)), (("arms", 1, 1), (1.5, 1.0, 0.5), (2.0, 3.0)))
 ORIGIN = (0.5, -1.0, 2.0)
 ACC_ALL = (1, 2, 3, 4, 5, 6, 7, 8, 9, "low", "middle", "high")
 ACC_BIG = (1, 2, 3, 4, 5, 9)  # "middle" is still exercised as the default accuracy
@@ -228,12 +240,13 @@ def _perp_basis(axis):
 # ------------------------------------------------------------------ part A
 
 
-def geometry(shape, rs, ds, o, perm=None):
+def geometry(shape, rs, ds, o, perm=None, origin=None):
     """Canonical layout (node i of the shape) and, if perm is given, the same tree with node i numbered perm[i]."""
     axis = ORIENT[o]
     p, zs_nom = layout(shape, ds)
     n = len(p)
-    xyz = [tuple(build.f32(ORIGIN[c] + z * axis[c]) for c in range(3)) for z in zs_nom]
+    origin = ORIGIN if origin is None else origin
+    xyz = [tuple(build.f32(origin[c] + z * axis[c]) for c in range(3)) for z in zs_nom]
     r32 = [build.f32(r) for r in rs]
     # what the implementation sees: stored coordinates projected on the axis
     zs = [sum((q[c] - xyz[0][c]) * axis[c] for c in range(3)) for q in xyz]
@@ -519,6 +532,68 @@ def check_history(case, R):
 
 
 
+def check_orient_pair(case, R):
+    """The same layout measured along direction a, then along direction b (every ordered pair of 14 directions that include sign
+    variants of one another), then along a again: each answer is the union volume of the tree asked about."""
+    gi, a, b = int(case[0]), int(case[1]), int(case[2])
+    shape, rs, ds = PAIR_GEOS[gi]
+    R.state(gi, a, b)
+    R.outcome(gi, a == b)
+    from swcgeom.utils.volumetric_object import VolMCObject
+
+    for pos, o in enumerate((a, b, a)):
+        g = geometry(shape, list(rs), list(ds), o)
+        want, _ = reference(g)
+        assert want is not None, "pair geometries are admissible"
+        t = build.make_tree(g["p"], xyz=g["xyz"], r=g["r"])
+        label = f"orientation history {[list(ORIENT[i]) for i in (a, b, a)]} call #{pos} on {label_of(g)}"
+        with OwnedRNG(g["axis"], 1, plane_points(g)) as rng:
+            VolMCObject.n_samples = 512
+            for acc in (3, "default"):
+                call_volume(R, rng, t, g, want, acc, label)
+
+
+FAR_SHAPES = (("chain", 1), ("chain", 2), ("chain", 3), ("arms", 1, 1))
+FAR_RADII = (0.25, 0.5)
+FAR_SPACINGS = (0.5, 1.0)
+FAR_K = tuple(range(4, 21))
+
+
+def far_cases():
+    for shape in FAR_SHAPES:
+        n = size_of(shape)
+        for rs in itertools.product(FAR_RADII, repeat=n):
+            for ds in itertools.product(FAR_SPACINGS, repeat=n - 1):
+                for o in (0, 4):
+                    for k in FAR_K:
+                        yield [list(shape), list(rs), list(ds), o, k]
+
+
+def check_far(case, R):
+    """Finely sampled layouts (dyadic radii and spacings along a coordinate axis) placed at +-2^k for every k in 4..20: all stored
+    coordinates are exact in float32, the solid is congruent to the one at the origin, and the volume is that of the union."""
+    from swcgeom.utils.volumetric_object import VolMCObject
+
+    shape, rs, ds, o, k = tuple(case[0]), list(case[1]), list(case[2]), int(case[3]), int(case[4])
+    origin = (2.0 ** k, -(2.0 ** k), 2.0 ** k)
+    g = geometry(shape, rs, ds, o, origin=origin)
+    for q, z in zip(g["xyz"], g["zs_nom"]):
+        assert all(float(q[c]) == origin[c] + z * ORIENT[o][c] for c in range(3)), "harness: far placement is not exact in float32"
+    want, why = reference(g)
+    R.state(case)
+    if want is None:
+        R.skip("not-admissible:" + why)
+        R.trivial()
+        return
+    R.outcome(shape[0], size_of(shape), k >= 12)
+    t = build.make_tree(g["p"], xyz=g["xyz"], r=g["r"])
+    label = f"{label_of(g)} placed at {origin}"
+    with OwnedRNG(g["axis"], 1, plane_points(g)) as rng:
+        VolMCObject.n_samples = 512
+        for acc in (3, "default", 2):
+            call_volume(R, rng, t, g, want, acc, label)
+
+
 # ------------------------------------------------------------------ the same histories, each in a FRESH interpreter
 
 _FRESH_CODE = """
@@ -664,6 +739,12 @@ def spaces(tier, seed):
         Space.of("history-fresh-process", lambda: (list(q) for q in itertools.permutations(FRESH_GEOS, 2)), check_fresh,
                  bounds={"geometries": [list(map(list, HIST_GEOS[i][:3])) + [HIST_GEOS[i][3]] for i in FRESH_GEOS], "sequence_length": 2,
                          "history": "every ordered pair of distinct layouts, each in a new interpreter"}),
+        Space.of("far-from-origin", far_cases, check_far,
+                 bounds={"shapes": [list(x) for x in FAR_SHAPES], "radii": list(FAR_RADII), "spacings": list(FAR_SPACINGS), "directions": [list(ORIENT[0]), list(ORIENT[4])],
+                         "placements": "(2^k, -2^k, 2^k) for every k in 4..20 (exact in float32)", "accuracy": [3, "default", 2]}),
+        Space.of("orientation-pairs", lambda: ([gi, a, b] for gi in range(len(PAIR_GEOS)) for a in ORIENT_PAIR_IDX for b in ORIENT_PAIR_IDX), check_orient_pair,
+                 bounds={"layouts": [list(map(list, g[1:])) for g in PAIR_GEOS], "directions": [list(ORIENT[i]) for i in ORIENT_PAIR_IDX],
+                         "sequences": "every ordered pair (a, b): measured along a, b, a again", "accuracy": [3, "default"]}),
         Space.of("history", gen_history, check_history,
                  bounds={"geometries": len(HIST_GEOS), "sequence_length": hist_depth,
                          "history": "fresh tree per position, first tree object again at the end; accuracy 3, 5, 1, default + extractor"}),
